@@ -101,6 +101,11 @@ impl SelectSourcesStub {
 pub struct CircuitBuilder<F> {
     pub vals: Ghost<Map<ExprId, F>>,
     pub sat: Ghost<bool>,
+    /// taint (C06): targets whose value is pinned, in every accepted proof, by constants, public values and
+    /// relation-checked operations over pinned operands
+    pub bnd: Ghost<Set<ExprId>>,
+    /// taint (C06): the full output state of the latest sponge-table row is pinned (in-table chaining)
+    pub chain: Ghost<bool>,
     pub expr_builder: ExprBuilderStub<F>,
     pub ext_select_sources: SelectSourcesStub,
 }
@@ -110,13 +115,16 @@ impl<F: Field> CircuitBuilder<F> {
     pub open spec fn val(&self, e: ExprId) -> F { self.vals@[e] }
     pub open spec fn has_all(&self, s: Seq<ExprId>) -> bool { forall|i: int| 0 <= i < s.len() ==> self.has(#[trigger] s[i]) }
     pub open spec fn vals_of(&self, s: Seq<ExprId>) -> Seq<F> { Seq::new(s.len(), |i: int| self.val(s[i])) }
+    pub open spec fn bound(&self, e: ExprId) -> bool { self.bnd@.contains(e) }
+    pub open spec fn all_bound(&self, s: Seq<ExprId>) -> bool { forall|i: int| 0 <= i < s.len() ==> self.bound(#[trigger] s[i]) }
     /// every expression allocated in `old` is still there with the same value; no constraint was retracted
     pub open spec fn extends(&self, old: &Self) -> bool {
         &&& forall|e: ExprId| #[trigger] old.has(e) ==> self.has(e) && self.val(e) == old.val(e)
         &&& (self.sat@ ==> old.sat@)
+        &&& forall|e: ExprId| #[trigger] old.bound(e) ==> self.bound(e)
     }
     /// `extends` without new constraints
-    pub open spec fn extends_pure(&self, old: &Self) -> bool { self.extends(old) && self.sat@ == old.sat@ }
+    pub open spec fn extends_pure(&self, old: &Self) -> bool { self.extends(old) && self.sat@ == old.sat@ && self.chain@ == old.chain@ }
 
     pub proof fn lemma_extends_trans(a: &Self, b: &Self, c: &Self)
         requires b.extends(a), c.extends(b) ensures c.extends(a) {}
@@ -126,36 +134,36 @@ impl<F: Field> CircuitBuilder<F> {
     // ---------------------------------------------------------------- primitive operations (assumed contracts)
     #[verifier::external_body]
     pub fn define_const(&mut self, v: F) -> (r: ExprId)
-        ensures final(self).extends_pure(old(self)), final(self).has(r), final(self).val(r) == v
+        ensures final(self).extends_pure(old(self)), final(self).has(r), final(self).bound(r), final(self).val(r) == v
     { unimplemented!() }
     #[verifier::external_body]
     pub fn alloc_const(&mut self, v: F, label: &'static str) -> (r: ExprId)
-        ensures final(self).extends_pure(old(self)), final(self).has(r), final(self).val(r) == v
+        ensures final(self).extends_pure(old(self)), final(self).has(r), final(self).bound(r), final(self).val(r) == v
     { unimplemented!() }
 
     #[verifier::external_body]
     pub fn add(&mut self, lhs: ExprId, rhs: ExprId) -> (r: ExprId)
-        ensures final(self).extends_pure(old(self)), final(self).has(r), final(self).val(r) == old(self).val(lhs).fadd(old(self).val(rhs))
+        ensures final(self).extends_pure(old(self)), final(self).has(r), old(self).bound(lhs) && old(self).bound(rhs) ==> final(self).bound(r), final(self).val(r) == old(self).val(lhs).fadd(old(self).val(rhs))
     { unimplemented!() }
     #[verifier::external_body]
     pub fn alloc_add(&mut self, lhs: ExprId, rhs: ExprId, label: &'static str) -> (r: ExprId)
-        ensures final(self).extends_pure(old(self)), final(self).has(r), final(self).val(r) == old(self).val(lhs).fadd(old(self).val(rhs))
+        ensures final(self).extends_pure(old(self)), final(self).has(r), old(self).bound(lhs) && old(self).bound(rhs) ==> final(self).bound(r), final(self).val(r) == old(self).val(lhs).fadd(old(self).val(rhs))
     { unimplemented!() }
     #[verifier::external_body]
     pub fn sub(&mut self, lhs: ExprId, rhs: ExprId) -> (r: ExprId)
-        ensures final(self).extends_pure(old(self)), final(self).has(r), final(self).val(r) == old(self).val(lhs).fsub(old(self).val(rhs))
+        ensures final(self).extends_pure(old(self)), final(self).has(r), old(self).bound(lhs) && old(self).bound(rhs) ==> final(self).bound(r), final(self).val(r) == old(self).val(lhs).fsub(old(self).val(rhs))
     { unimplemented!() }
     #[verifier::external_body]
     pub fn alloc_sub(&mut self, lhs: ExprId, rhs: ExprId, label: &'static str) -> (r: ExprId)
-        ensures final(self).extends_pure(old(self)), final(self).has(r), final(self).val(r) == old(self).val(lhs).fsub(old(self).val(rhs))
+        ensures final(self).extends_pure(old(self)), final(self).has(r), old(self).bound(lhs) && old(self).bound(rhs) ==> final(self).bound(r), final(self).val(r) == old(self).val(lhs).fsub(old(self).val(rhs))
     { unimplemented!() }
     #[verifier::external_body]
     pub fn mul(&mut self, lhs: ExprId, rhs: ExprId) -> (r: ExprId)
-        ensures final(self).extends_pure(old(self)), final(self).has(r), final(self).val(r) == old(self).val(lhs).fmul(old(self).val(rhs))
+        ensures final(self).extends_pure(old(self)), final(self).has(r), old(self).bound(lhs) && old(self).bound(rhs) ==> final(self).bound(r), final(self).val(r) == old(self).val(lhs).fmul(old(self).val(rhs))
     { unimplemented!() }
     #[verifier::external_body]
     pub fn alloc_mul(&mut self, lhs: ExprId, rhs: ExprId, label: &'static str) -> (r: ExprId)
-        ensures final(self).extends_pure(old(self)), final(self).has(r), final(self).val(r) == old(self).val(lhs).fmul(old(self).val(rhs))
+        ensures final(self).extends_pure(old(self)), final(self).has(r), old(self).bound(lhs) && old(self).bound(rhs) ==> final(self).bound(r), final(self).val(r) == old(self).val(lhs).fmul(old(self).val(rhs))
     { unimplemented!() }
     /// division: the quotient is pinned only when the divisor is non-zero (backward multiplication)
     #[verifier::external_body]
@@ -170,7 +178,7 @@ impl<F: Field> CircuitBuilder<F> {
     { unimplemented!() }
     #[verifier::external_body]
     pub fn mul_add(&mut self, a: ExprId, b: ExprId, c: ExprId) -> (r: ExprId)
-        ensures final(self).extends_pure(old(self)), final(self).has(r),
+        ensures final(self).extends_pure(old(self)), final(self).has(r), old(self).bound(a) && old(self).bound(b) && old(self).bound(c) ==> final(self).bound(r),
                 final(self).val(r) == old(self).val(a).fmul(old(self).val(b)).fadd(old(self).val(c))
     { unimplemented!() }
     #[verifier::external_body]
@@ -197,7 +205,7 @@ impl<F: Field> CircuitBuilder<F> {
     /// inputs: value unconstrained
     #[verifier::external_body]
     pub fn public_input(&mut self) -> (r: ExprId)
-        ensures final(self).extends_pure(old(self)), final(self).has(r), !old(self).has(r)
+        ensures final(self).extends_pure(old(self)), final(self).has(r), final(self).bound(r), !old(self).has(r)
     { unimplemented!() }
     #[verifier::external_body]
     pub fn alloc_private_input(&mut self, label: &'static str) -> (r: ExprId)
